@@ -67,6 +67,8 @@ type SigResult struct {
 	ReadPanicSite string   `json:"read_panic_site"`
 	MergeVerdict  string   `json:"merge_verdict"` // new | invalid | ... | skipped
 	MergeReason   string   `json:"merge_reason"`
+	// WriterRefused: git-bug itself refused to write the commit (keys in force, no private key): a valid outcome
+	WriterRefused bool `json:"writer_refused,omitempty"`
 }
 
 // ---- generator ------------------------------------------------------------------------
@@ -495,6 +497,9 @@ func gitbugWrite(rep *world.Replica, c SigCase, keyedId entity.Id) (string, erro
 		for m := range bug.MergeAll(repo, world.Resolvers(repo), "x", keyed) {
 			// without a private key git-bug writes the merge commit unsigned and may then fail to
 			// read its own work back; what counts here is the commit it left behind (checked by the caller)
+			if m.Err != nil && strings.Contains(m.Err.Error(), "no private key is available") {
+				return "", m.Err
+			}
 			if (m.Err != nil || m.Status != entity.MergeStatusUpdated) && c.Sign != "nokey" {
 				return "", fmt.Errorf("writer-side merge: status %s %v %s", statusName(m.Status), m.Err, m.Reason)
 			}
@@ -630,6 +635,11 @@ func runSigCase(c SigCase) SigResult {
 				}
 			}
 			bugId, err = gitbugWrite(writer, c, keyed.Id())
+			if err != nil && c.Sign == "nokey" && strings.Contains(err.Error(), "no private key is available") {
+				// the editing API refuses to write a commit nobody could accept: nothing to read back
+				res.WriterRefused = true
+				return res
+			}
 			if err != nil {
 				return herr("git-bug writer", err)
 			}
@@ -822,6 +832,11 @@ func runC08(tier, replay string) int {
 		if res.HarnessError != "" {
 			r.Case("harness-error", false)
 			r.Inconclusive("case " + c.Name + ": " + res.HarnessError)
+			continue
+		}
+		if res.WriterRefused {
+			r.Case(fmt.Sprintf("versions=%d rel=%s writer=gitbug sign=nokey kind=%s writer-refused", len(c.Versions), c.Rel, c.Kind), true)
+			r.Count("writer_refused_to_write_unsigned_commit", 1)
 			continue
 		}
 		expect := "refuse"
